@@ -83,9 +83,9 @@ def cubicseg (v : Array String) : String :=
   unwords [ "n", fPairs (c.lineSegmentIntersectionsT s) ]
 
 def tri (v : Array String) : String :=
-  let t : Tri α := ⟨rdP v 0, rdP v 2, rdP v 4⟩
+  let t : IxTri α := ⟨rdP v 0, rdP v 2, rdP v 4⟩
   let p : P α := rdP v 6
-  let o : Tri α := ⟨rdP v 8, rdP v 10, rdP v 12⟩
+  let o : IxTri α := ⟨rdP v 8, rdP v 10, rdP v 12⟩
   let s : Seg α := rdSeg v 14
   unwords [ "c", fb (t.containsPoint p), "i", fb (t.intersects o), "s", fb (t.intersectsLineSegment s) ]
 
